@@ -55,7 +55,7 @@ PROPS["C10"] = {
     "quick": {"shards": 4, "budget_s": 25, "max_restarts": 40},
     "thorough": {"shards": 16, "budget_s": 240, "max_restarts": 60},
     "floor": {"quick": 500, "thorough": 20000},
-    "require_counters": {"quick": {"B_crash_points_injected": 20, "A_roundtrips_equal": 100, "C_inputs_decoded": 1000},
+    "require_counters": {"quick": {"D_acknowledged_saves_verified_on_disk": 1500, "D_saves_refused_by_injected_failure": 400, "B_crash_points_injected": 20, "A_roundtrips_equal": 100, "C_inputs_decoded": 1000},
                          "thorough": {"B_crash_points_injected": 500, "A_roundtrips_equal": 5000}},
     "rule": "snapshot classes: empty, one, small, mixed (random values of all 28 kinds nested up to depth 3), large (2000-10000 scalars), wide (tables of 60-400 structs, 60-200 struct variables, a struct with 100-400 members, arrays of arrays, legal nesting up to depth 32). A: random snapshots over all retainable value shapes (NaN payloads, -0.0, extremes, unicode, nested arrays/structs, 0..10^4 entries), "
             "store->load compared bit-exactly; non-trivial = contains a compound value. B: (s_old,s_new) pairs incl. no previous file, smaller/larger, "
@@ -67,7 +67,7 @@ PROPS["C10"] = {
                   "the tree under test) and killing the process before/after/inside each one, then calling the real load(): it must return "
                   "s_old or s_new in full. The codec is checked by bit-exact round trips and the decoder by hostile inputs under an allocation "
                   "budget (peak <= 128*|file| + 1 MiB, single request <= 1 GiB) on a 2 MiB stack.",
-    "level_note": "Crash model = process death (completed system calls are durable); power-loss reordering of un-fsynced data is outside the property text and "
+    "level_note": "Part D drives saves through Runtime::save_retain_store (RetainManager change detection) over a store with injected failures: every save acknowledged with Ok must be loadable from the file and hold the runtime's current program-level and global RETAIN values. Crash model = process death (completed system calls are durable); power-loss reordering of un-fsynced data is outside the property text and "
                   "outside this technique. Exhaustive over the observed call sequence of each sampled save, not over all snapshots.",
     "assumptions": ["std::fs reaches the kernel through libc symbols the shim interposes (verified per run: a dry run with < 2 intercepted calls is inconclusive)",
                     "memory budget for decoding: 128 bytes per input byte + 1 MiB"],
@@ -252,7 +252,7 @@ PROPS["C02"] = {
     "quick": {"shards": 8, "budget_s": 30, "watchdog_s": 900},
     "thorough": {"shards": 16, "budget_s": 420, "watchdog_s": 3600, "release_pass": {"shards": 16, "budget_s": 90}},
     "floor": {"quick": 5000, "thorough": 50000},
-    "require_counters": {"quick": {"variables_compared": 1000000, "faults_agreed": 3000, "cycles_compared": 20000, "semantic_cells_checked": 11, "semantic_cell_values_compared": 68}, "thorough": {"variables_compared": 20000000, "evaluations_under_release_semantics": 5000}},
+    "require_counters": {"quick": {"variables_compared": 1000000, "faults_agreed": 3000, "cycles_compared": 20000, "semantic_cells_checked": 12, "semantic_cell_values_compared": 72}, "thorough": {"variables_compared": 20000000, "evaluations_under_release_semantics": 5000}},
     "rule": "seeded type-directed random programs of the C02 core grammar (see DESIGN C02): elementary-type expressions over one signedness family per operation, assignments incl. implicit "
             "widening, IF/CASE/FOR/WHILE/REPEAT/EXIT/CONTINUE/RETURN, arrays, structs, user functions (positional and named calls), FB instances with state and omitted inputs, "
             "short-circuit guard patterns, FOR bounds evaluated once, loops ending at the type limit; 3-5 cycles of boundary-biased inputs. distinct = (feature set, program hash bucket, "
@@ -262,8 +262,8 @@ PROPS["C02"] = {
                   "before each iteration, by-value inputs, persistent FB state. After every cycle every Main variable, array element, struct field and FB member is compared by declared type "
                   "(numeric value / bit pattern), and the fault class must agree.",
     "level_note": "Excluded from the generated C02 grammar (still run by C01): mixed signedness, conversions and standard functions, untyped literals, TIME arithmetic, strings. '**', "
-                  "operator precedence/associativity, VAR_IN_OUT (plain, through array elements / struct fields / nested FBs, and aliased), by-value inputs, default values of omitted inputs, initial values of FB inputs/outputs, EN/ENO gating of functions and FBs (also from nested callers) and output bindings (to variables, array elements, struct fields) are covered by 11 "
-                  "hand-derived semantic cells (harness/src/engines/c02cells.rs, 68 expected values worked out from IEC Table 71 and the by-reference rule) that run in every tier.",
+                  "operator precedence/associativity, VAR_IN_OUT (plain, through array elements / struct fields / nested FBs, and aliased), by-value inputs, default values of omitted inputs, initial values of FB inputs/outputs, EN/ENO gating of functions and FBs (also from nested callers) and output bindings (to variables, array elements, struct fields) are covered by 12 "
+                  "hand-derived semantic cells (harness/src/engines/c02cells.rs, 72 expected values worked out from IEC Table 71 and the by-reference rule) that run in every tier.",
     "assumptions": ["the reference evaluator is the trusted base", "value of a FOR control variable after the loop is not compared (re-assigned by the generated program)"],
     "design_ref": "DESIGN.md section 8 (as built; plan in section 3), C02",
 }
@@ -292,7 +292,7 @@ PROPS["C05"] = {
     "quick": {"shards": 4, "budget_s": 25, "watchdog_s": 900, "parallel": 4},
     "thorough": {"shards": 4, "budget_s": 420, "watchdog_s": 3600, "parallel": 4},
     "floor": {"quick": 200, "thorough": 5000},
-    "require_counters": {"quick": {"job_executions_compared": 5000, "jobs_with_20_or_more_names": 100, "child_processes_completed": 100, "jobs_with_sibling_fb_io_bindings": 100},
+    "require_counters": {"quick": {"job_executions_compared": 5000, "jobs_with_20_or_more_names": 100, "child_processes_completed": 100, "jobs_with_sibling_fb_io_bindings": 100, "jobs_with_several_background_programs": 100},
                          "thorough": {"job_executions_compared": 200000}},
     "rule": "job = (sources, input+clock trace): programs with 12-21 shuffled names of every kind (enums, structs, functions, FBs with strings, interfaces + classes with methods, 3 tasks incl. an "
             "event task), programs with 3-8 sibling plus nested FB instances whose types declare AT %I/%Q/%M variables on shared addresses (binding registration order reaches the container and "
